@@ -21,7 +21,7 @@ from ..utils import defaultdict2
 from .config import DiffConfig
 from .generic import (
     diff, diff_sequence_multilevel, compare_strings_approximate,
-    diff_string_lines,
+    diff_string_lines, strict_equal,
 )
 
 __all__ = ["diff_notebooks"]
@@ -521,7 +521,7 @@ def diff_ignore_keys(inner_differ, ignore_keys):
 # Sequence diffs should be applied with multilevel
 # algorithm for paths with more than one predicate,
 # and using operator.__eq__ if no match in there.
-notebook_predicates = defaultdict2(lambda: [operator.__eq__], {
+notebook_predicates = defaultdict2(lambda: [strict_equal], {
     # Predicates to compare cells in order of low-to-high precedence
     "/cells": [
         compare_cell_approximate,
